@@ -81,7 +81,7 @@ fn expand(op: &str) -> Vec<String> {
 
 fn main() {
     let a: Vec<String> = std::env::args().collect();
-    if std::env::var("LV_SHOW_PANICS").is_err() { util::silence_panics(); }
+    util::silence_panics();
     match a.get(1).map(|s| s.as_str()) {
         Some("gen") if a.len() >= 6 => {
             let (suite, tier, seed, dir) = (a[2].as_str(), a[3].as_str(), a[4].parse::<u64>().unwrap_or(0), a[5].as_str());
